@@ -9,19 +9,24 @@
 (* for deeper terms.  The invariants are the type-correctness laws of the sizing calculus.     *)
 EXTENDS WidgetTreeOps, TLC
 
-CONSTANTS Profile,      \* "full" | "rep" | "tiny": size of the option alphabets
-          LeafSet,      \* "full" | "rep" | "tiny" | "probe": which leaves may be pushed
+CONSTANTS Profile,      \* "full" | "rep" | "tiny" | "wt" (wide item-option alphabets of Pile / Columns, everything else tiny)
+                        \* | "min" (tiny with one way of sharing the columns: shapes matter, not options)
+          LeafSet,      \* "full" | "rep" | "tiny" | "probe" | "wt" | "shards": which leaves may be pushed
           MaxDepth,     \* bound on the depth of the finished term
           MaxKids,      \* bound on the number of children of a container
           SibDepth,     \* all stack entries except one must have depth <= SibDepth (exhaustive runs: 0)
           MaxNodes,     \* bound on the number of nodes of a term
           Sim,          \* TRUE: options are drawn with RandomElement (for -simulate)
           Kinds         \* "all" | "geom" (the decorations / containers C09 quantifies over) | "scroll" (ScrollBar stacks)
+                        \* | "wt" (Pile / Columns only: the space-sharing options, see Profile "wt")
+                        \* | "shards" (stackers over clippers over rows of unequal cells: canvases cut through and stacked again)
 
 VARIABLES stack, lastop
 vars == <<stack, lastop>>
 
-Pick(S) == IF Sim /\ S # {} THEN {RandomElement(S)} ELSE S
+\* Sim: one random element per evaluation.  The filter mentions the state on purpose: TLC evaluates a constant-level
+\* RandomElement(S) ONCE per run (constant folding), which would give every step of a simulation the same leaf / kind.
+Pick(S) == IF Sim /\ S # {} THEN {RandomElement({x \in S : Len(stack) >= 0})} ELSE S
 T(k, o, c) == Mk(k, o, c)
 
 (* ---- leaf alphabets ----------------------------------------------------------------------- *)
@@ -60,9 +65,16 @@ LeavesTiny == {T("Text", <<"ascii", "space", "left", 0>>, <<>>), T("Text", <<"cj
                T("Text", <<"nlw", "space", "left", 0>>, <<>>),
                T("Edit", <<"ab", "ascii", 0, "end", "left", "space">>, <<>>), T("SolidFill", <<"line">>, <<>>),
                T("BigText", <<"12", "thin3">>, <<>>), T("Probe", <<2, "flow", 3, 2, 1, "even">>, <<>>)}
+\* "wt": one leaf per sizing (flow+fixed, box); the sharing rules of Pile / Columns do not look inside the leaf
+LeavesWt == {T("Text", <<"ascii", "space", "left", 0>>, <<>>), T("SolidFill", <<"line">>, <<>>)}
+\* "shards": cells of different heights (one line, three lines; simulation adds a divider with a blank row above and below and a three-line Edit) and a box cell
+LeavesShards == {T("Text", <<"a", "space", "left", 0>>, <<>>), T("Text", <<"nl", "clip", "left", 0>>, <<>>), T("SolidFill", <<"line">>, <<>>)}
+                \cup (IF Sim THEN {T("Divider", <<"dash", 1, 1>>, <<>>), T("Edit", <<"empty", "nl", 1, "end", "left", "clip">>, <<>>)} ELSE {})
 Leaves == CASE LeafSet = "full" -> LeavesFull
             [] LeafSet = "rep" -> LeavesRep
             [] LeafSet = "tiny" -> LeavesTiny
+            [] LeafSet = "wt" -> LeavesWt
+            [] LeafSet = "shards" -> LeavesShards
             [] LeafSet = "probe" -> ProbeLeaves \cup RealCursorLeaves
 
 (* ---- decoration option alphabets ---------------------------------------------------------- *)
@@ -97,17 +109,22 @@ DecoOpts(d) ==
     [] d = "ScrollBar" -> IF Profile = "tiny" THEN {<<"right", 1>>} ELSE {<<"left", 1>>, <<"right", 1>>, <<"right", 2>>}
 
 (* ---- container option alphabets ----------------------------------------------------------- *)
-PileItemOpts == CASE Profile = "full" -> {<<"pack", 0>>, <<"given", 1>>, <<"given", 2>>, <<"weight", 0>>, <<"weight", 1>>, <<"weight", 2>>}
+\* ("weight", 0): the item takes no share of the rows that are divided; unequal weights in both orders
+PileItemOpts == CASE Profile = "full" -> {<<"pack", 0>>, <<"given", 1>>, <<"given", 2>>, <<"weight", 0>>, <<"weight", 1>>, <<"weight", 2>>, <<"weight", 5>>}
+                  [] Profile = "wt" -> {<<"pack", 0>>, <<"given", 1>>, <<"weight", 0>>, <<"weight", 1>>, <<"weight", 3>>}
                   [] Profile = "rep" -> {<<"pack", 0>>, <<"given", 2>>, <<"weight", 1>>, <<"weight", 2>>}
                   [] OTHER -> {<<"pack", 0>>, <<"given", 2>>, <<"weight", 1>>}
 ColItemOpts == CASE Profile = "full" -> {<<"pack", 0, 0>>, <<"given", 2, 0>>, <<"given", 3, 1>>, <<"weight", 0, 0>>,
-                                         <<"weight", 1, 0>>, <<"weight", 2, 0>>, <<"weight", 1, 1>>}
+                                         <<"weight", 1, 0>>, <<"weight", 2, 0>>, <<"weight", 1, 1>>, <<"weight", 5, 0>>, <<"weight", 9, 0>>}
+                 [] Profile = "wt" -> {<<"pack", 0, 0>>, <<"given", 2, 0>>, <<"weight", 0, 0>>, <<"weight", 1, 0>>, <<"weight", 2, 0>>,
+                                       <<"weight", 5, 0>>, <<"weight", 1, 1>>}
+                 [] Profile = "min" -> {<<"weight", 1, 0>>}
                  [] Profile = "rep" -> {<<"pack", 0, 0>>, <<"given", 2, 0>>, <<"weight", 1, 0>>, <<"weight", 2, 1>>}
                  [] OTHER -> {<<"pack", 0, 0>>, <<"given", 2, 0>>, <<"weight", 1, 0>>, <<"weight", 1, 1>>}
 Focuses(k) == IF Profile # "full" THEN {-1} ELSE {-1} \cup (IF k > 1 THEN {k - 1} ELSE {})
 ContOpts(K, k) ==
   CASE K = "Pile" -> {<<f, io>> : f \in Focuses(k), io \in [1..k -> PileItemOpts]}
-    [] K = "Columns" -> {<<dc, mw, f, io>> : dc \in (CASE Profile = "tiny" -> (IF Kinds = "geom" THEN {0, 1} ELSE {1}) [] Profile = "rep" -> {0, 1} [] OTHER -> {0, 1, 2}), mw \in (IF Profile = "full" THEN {1, 2} ELSE {1}),
+    [] K = "Columns" -> {<<dc, mw, f, io>> : dc \in (CASE Profile = "tiny" -> (IF Kinds = "geom" THEN {0, 1} ELSE {1}) [] Profile = "min" -> {1} [] Profile = "rep" -> {0, 1} [] OTHER -> {0, 1, 2}), mw \in (IF Profile \in {"full", "wt"} THEN {1, 2, 3} ELSE {1}),
                                              f \in Focuses(k), io \in [1..k -> ColItemOpts]}
     [] K = "Frame" -> {<<h, f, fp>> \in {0, 1} \X {0, 1} \X {"body", "header", "footer"} :
                          /\ 1 + h + f = k /\ (fp = "header" => h = 1) /\ (fp = "footer" => f = 1) /\ (Profile = "tiny" => fp = "body")}
@@ -125,8 +142,74 @@ ContOpts(K, k) ==
 
 DecoUsed == CASE Kinds = "geom" -> {"Padding", "Filler", "LineBox", "AttrMap", "BoxAdapter"}
               [] Kinds = "scroll" -> {"Scrollable", "ScrollBar"}
+              [] Kinds = "wt" -> {}
+              [] Kinds = "shards" -> {"Filler", "BoxAdapter"}                    \* the decorations that cut a canvas at the bottom
               [] OTHER -> DecoKinds
-ContUsed == IF Kinds = "scroll" THEN {"ListBox"} ELSE ContKinds
+ContUsed == CASE Kinds = "scroll" -> {"ListBox"}
+              [] Kinds = "wt" -> {"Pile", "Columns"}
+              [] Kinds = "shards" -> {"Pile", "Columns", "ListBox", "Frame", "Overlay"}
+              [] OTHER -> ContKinds
+\* the number of children of a Frame is fixed by its options (body, header?, footer?), not by the bound on list-like containers
+Arity(K) == IF K = "Frame" /\ MaxKids >= 2 THEN 3 ELSE MaxKids
+
+(* ---- the "wt" family: sharing the width among weighted columns ---------------------------- *)
+(* Reference share-out for a Columns whose columns are all WEIGHT columns that fit: the columns  *)
+(* left after the dividers are divided in proportion to the weights, each share rounded and      *)
+(* raised to min_width, the LIGHTEST column first, so that the columns raised to min_width are   *)
+(* served before the heavy ones take what is left.  ShareOut(.., FALSE) is the deliberately      *)
+(* wrong variant that serves the columns in column order: a heavy column in front rounds up to   *)
+(* everything that is left and the light ones behind it are still raised to min_width.           *)
+Round(a, b) == (2 * a + b) \div (2 * b)                  \* a / b rounded half up
+RECURSIVE SumOver(_, _)
+SumOver(f, S) == IF S = {} THEN 0 ELSE LET i == CHOOSE j \in S : TRUE IN f[i] + SumOver(f, S \ {i})
+Lightest(rem, wt) == CHOOSE j \in rem : \A k \in rem : wt[j] < wt[k] \/ (wt[j] = wt[k] /\ j <= k)
+RECURSIVE ShareOut(_, _, _, _, _)
+ShareOut(rem, grow, wt, minw, asc) ==
+  IF rem = {} THEN <<>>
+  ELSE LET i == IF asc THEN Lightest(rem, wt) ELSE MinOf(rem)
+           tot == SumOver(wt, rem)
+           width == IF tot = 0 THEN minw ELSE MaxOf({Round(grow * wt[i], tot), minw})
+       IN (i :> width) @@ ShareOut(rem \ {i}, grow - width, wt, minw, asc)
+\* <<number of columns, weights, min_width, dividechars, columns beyond the minimum>>
+ShareInstances == UNION {{<<n, wt, minw, dc, extra>> : wt \in [1..n -> {0, 1, 2, 5}], minw \in 1..2, dc \in 0..1, extra \in 0..5} : n \in 1..3}
+ShareLaw(x, asc) ==
+  LET n == x[1]  wt == x[2]  minw == x[3]  dc == x[4]
+      maxcol == n * minw + dc * (n - 1) + x[5]
+      w == ShareOut(1..n, maxcol - dc * (n - 1), wt, minw, asc)
+      o == <<dc, minw, -1, [i \in 1..n |-> <<"weight", wt[i], 0>>]>>
+  IN /\ ColumnsLayoutOK(o, w, maxcol)
+     /\ (SumOver(wt, 1..n) > 0 => SumSeq(w) + dc * (n - 1) = maxcol)          \* positive weights share out ALL the columns
+\* checked by TLC when the family is generated: the reference keeps the contract, the wrong variant is refuted
+ASSUME Kinds = "wt" => \A x \in ShareInstances : ShareLaw(x, TRUE)
+ASSUME Kinds = "wt" => \E x \in ShareInstances : ~ShareLaw(x, FALSE)
+ASSUME ShareOut(1..2, 3, <<5, 1>>, 1, TRUE) = <<2, 1>> /\ ShareOut(1..2, 3, <<5, 1>>, 1, FALSE) = <<3, 1>>
+
+(* ---- the "shards" family ------------------------------------------------------------------ *)
+(* A canvas is a stack of shards (horizontal bands), each a row of views into the canvases of  *)
+(* the cells; a cell taller than its neighbours spans several shards.  The family holds the    *)
+(* terms in which such a canvas is CUT through by a clipper and then STACKED with more canvas: *)
+(*   cell   a leaf, or a Pile of leaves (a stack of short cells)                               *)
+(*   row    a Columns of cells (cells of different heights side by side)                       *)
+(*   clip   a ListBox holding a row (its last visible item is cut), a Filler around a row      *)
+(*          (cut when it gets fewer rows), a BoxAdapter around a clip                          *)
+(*   stack  a Frame or a Pile holding a clip next to cells (header / footer / following item), *)
+(*          an Overlay of a cell over a clip or over a (box) row                               *)
+RECURSIVE Role(_)
+Role(t) ==
+  LET n == Len(t.c)
+      R == [i \in 1..n |-> Role(t.c[i])]
+      all(S) == \A i \in 1..n : R[i] \in S
+      one(r) == \E i \in 1..n : R[i] = r
+  IN CASE t.k \in LeafKinds -> "cell"
+       [] t.k = "Pile" /\ n > 0 /\ (\A i \in 1..n : t.c[i].k \in LeafKinds) -> "cell"
+       [] t.k = "Columns" /\ n > 0 /\ all({"cell"}) -> "row"
+       [] t.k = "ListBox" /\ all({"cell", "row"}) /\ one("row") -> "clip"
+       [] t.k = "Filler" /\ R[1] = "row" -> "clip"
+       [] t.k = "BoxAdapter" /\ R[1] = "clip" -> "clip"
+       [] t.k \in {"Frame", "Pile"} /\ all({"cell", "clip"}) /\ one("clip") -> "stack"
+       [] t.k = "Overlay" /\ R[1] = "cell" /\ R[2] \in {"clip", "row"} -> "stack"
+       [] OTHER -> "other"
+InFamily(t) == Kinds = "shards" => Role(t) # "other"
 
 (* ---- the builder -------------------------------------------------------------------------- *)
 Top == stack[Len(stack)]
@@ -149,17 +232,17 @@ Wrap == /\ Len(stack) >= 1
         /\ \E d \in Pick(DecoUsed) : \E o \in Pick(DecoOpts(d)) :
              LET t == T(d, o, <<Top>>)
                  s == [stack EXCEPT ![Len(stack)] = t]
-             IN /\ ~HasEmpty(Top) /\ StackOK(s) /\ WellFormed(t)
+             IN /\ ~HasEmpty(Top) /\ StackOK(s) /\ WellFormed(t) /\ InFamily(t)
                 /\ stack' = s /\ lastop' = "Wrap"
 
-Compose == \E K \in Pick(ContUsed) : \E k \in Pick(0..(IF Len(stack) < MaxKids THEN Len(stack) ELSE MaxKids)) :
+Compose == \E K \in Pick(ContUsed) : \E k \in Pick(0..(IF Len(stack) < Arity(K) THEN Len(stack) ELSE Arity(K))) :
              \E o \in Pick(ContOpts(K, k)) :
                LET kids == SubSeq(stack, Len(stack) - k + 1, Len(stack))
                    t == T(K, o, kids)
                    s == Append(SubSeq(stack, 1, Len(stack) - k), t)
                IN /\ (k = 0 => stack = <<>>)          \* empty containers only as the whole term
                   /\ \A i \in 1..k : ~HasEmpty(kids[i])
-                  /\ StackOK(s) /\ WellFormed(t)
+                  /\ StackOK(s) /\ WellFormed(t) /\ InFamily(t)
                   /\ stack' = s /\ lastop' = "Compose"
 
 Next == Leaf \/ Wrap \/ Compose
